@@ -611,6 +611,15 @@ func (V *Verifier) checkExit(fc *FuncCtx, s *State, vals []Val, fi *FuncInfo, is
 		two := strings.HasPrefix(srt, "(Array Int (Array Int")
 		var in []string
 		if h := fp[n]; h != nil {
+			all := false
+			for _, t := range h.targets {
+				if t.kind == "allelems" {
+					all = true
+				}
+			}
+			if all {
+				continue // the whole element heap is in the footprint
+			}
 			for _, t := range h.targets {
 				if two {
 					in = append(in, sAnd(sEq("g_a", t.arr), sCmp("<=", t.lo, "g_i"), sCmp("<", "g_i", t.hi)))
